@@ -12,6 +12,17 @@ from . import common
 from . import batteries as B
 
 
+OBJ_POOL = ['b', 'ab', 'a', ' a', '10', '9', 'a b', 'b ', 'B', 'aa', '1', 'b a']
+PROP_POOL = ['q', 'pq', 'p', ' p', '2', '11', 'p q', 'q ', 'Q', 'pp', '0', 'q p']
+
+
+def awkward_labels(n, m):
+    objs = tuple(OBJ_POOL[i] if i < len(OBJ_POOL) else f'o{n - 1 - i:03d}' for i in range(n))
+    props = tuple(PROP_POOL[j] if j < len(PROP_POOL) else f'p{m - 1 - j:03d}' for j in range(m))
+    assert len(set(objs) | set(props)) == n + m
+    return objs, props
+
+
 def _concretize(ctx):
     """After pinning, every bitset value reachable from the context/lattice has exactly one value under the path
     condition: store it, so that the observation phase runs on the concrete fast paths."""
@@ -51,11 +62,10 @@ def unit(pid, battery_name, args, prefix=(), max_depth=None):
         cells = [[z3.Bool(f'c_{i}_{j}') if fixed[i][j] is None else bool(fixed[i][j]) for j in range(m)]
                  for i in range(n)]
     symcells = [c for row in cells for c in row if z3.is_expr(c)]
-    # labels whose alphabetical order differs from their position in the context
-    objs = tuple(f'o{n - 1 - i:02d}' for i in range(n))
-    props = tuple(f'p{(j * 7 + 3) % m if m in (1, 2, 3, 4, 5, 6, 8, 9, 10) else j:02d}' for j in range(m))
-    if len(set(props)) != m:
-        props = tuple(f'p{m - 1 - j:02d}' for j in range(m))
+    # labels whose alphabetical order differs from their position in the context and whose VALUES are awkward: prefixes
+    # of each other, inner spaces, numeric-looking (10 < 9 as strings), case variants, a label that occurs with another
+    # meaning inside a longer one
+    objs, props = awkward_labels(n, m)
 
     def body():
         cx = core.ctx()
@@ -79,6 +89,14 @@ def unit(pid, battery_name, args, prefix=(), max_depth=None):
             # state carried between calls: everything again on the same objects
             fails += [f'(second pass over the same objects) {f}' for f in battery(ctx, orc, light=True)]
             out['queries'] += 3
+            if not fails and battery_name not in ('b11', 'b14', 'b15', 'b16'):
+                # the same observables on objects obtained indirectly: reloaded from the dict form (stored lattice)
+                # and rebuilt from the definition
+                loaded = concepts.Context.fromdict(ctx.todict())
+                fails += [f'(context reloaded with fromdict(todict()), stored lattice) {f}' for f in battery(loaded, orc, light=True)]
+                rebuilt = concepts.Context(*ctx.definition())
+                fails += [f'(context rebuilt from its definition) {f}' for f in battery(rebuilt, orc, light=True)]
+                out['queries'] += 2
             if fails:
                 what = '; '.join(fails[:3])
         except core.Inconclusive as e:
